@@ -219,9 +219,19 @@ def _exec_chunk(args):
 
 
 # ------------------------------------------------------------------------------------------------------
+class _Sub:
+    """The view of the run context tracecheck.validate needs, with a scratch directory of its own (the trace files
+    of two concurrent validations must not collide)."""
+
+    def __init__(self, ctx, name):
+        self.scratch = os.path.join(ctx.scratch, name)
+        os.makedirs(self.scratch, exist_ok=True)
+        self.workers, self.tlc_runs, self.cov = ctx.workers, ctx.tlc_runs, ctx.cov
+
+
 def validate(ctx, mode, traces, what):
     """TLC judges (thread-safe part): returns the raw (trace index, line, [clause, tags]) triples."""
-    viols, _ = tc.validate(ctx, "Trace_HCache", trace_cfg(ctx, mode), traces, what, min_batch=3000)
+    viols, _ = tc.validate(_Sub(ctx, "val_" + mode), "Trace_HCache", trace_cfg(ctx, mode), traces, what, min_batch=3000)
     return viols
 
 
